@@ -560,7 +560,9 @@ func checkSweepGuards(c *report.Ctx) {
 		for _, g := range an.WithAnon(inv) {
 			gf := an.NewFacts(g)
 			for _, call := range an.CallsTo(g, srvT+".Shutdown") {
-				okSh = gf.Holds(call.Block(), func(ft an.Fact) bool { return an.CmpNil(ft, false, errResultOf("Server.awaitInitialized")) })
+				okSh = gf.Holds(call.Block(), func(ft an.Fact) bool { return an.CmpNil(ft, false, errResultOf("Server.awaitInitialized")) }) ||
+					// or, whatever the form of the test (err == A || err == B, a switch): not reachable while the error is nil
+					!reachesAssumingNil(g, errResultOf("Server.awaitInitialized"), call)
 			}
 			for _, call := range an.CallsTo(g, srvT+".Reset") {
 				if s, _ := an.ConstString(call.Common().Args[1]); s == "ReleaseFail" {
@@ -780,4 +782,73 @@ func sweepMisc(c *report.Ctx, which int) {
 		}
 		c.Check("R-CONST", an.FuncName(f)+"/route", "GET /credentials is served by the credentials handler", ok, fpos(f), 1, "%v", ok)
 	}
+}
+
+// reachesAssumingNil: can target be reached from g's entry on a path on which every test of the value(s) satisfying
+// isErr is decided as if the value were nil (== nil holds, != nil fails, == <package-level error variable> fails)?
+func reachesAssumingNil(g *ssa.Function, isErr func(ssa.Value) bool, target ssa.Instruction) bool {
+	decide := func(cond ssa.Value) (bool, bool) {
+		neg := false
+		for i := 0; i < 8; i++ {
+			if u, ok := cond.(*ssa.UnOp); ok && u.Op == token.NOT {
+				neg, cond = !neg, u.X
+				continue
+			}
+			break
+		}
+		bo, ok := cond.(*ssa.BinOp)
+		if !ok || (bo.Op != token.EQL && bo.Op != token.NEQ) {
+			return false, false
+		}
+		var other ssa.Value
+		switch {
+		case isErr(an.Strip(bo.X, false)):
+			other = bo.Y
+		case isErr(an.Strip(bo.Y, false)):
+			other = bo.X
+		default:
+			return false, false
+		}
+		var eq bool
+		switch {
+		case an.IsNil(other):
+			eq = true
+		case an.GlobalOf(an.Strip(other, false)) != "":
+			eq = false // sentinels are non-nil error values
+		default:
+			return false, false
+		}
+		return (eq == (bo.Op == token.EQL)) != neg, true
+	}
+	seen := map[*ssa.BasicBlock]bool{}
+	var walk func(b *ssa.BasicBlock) bool
+	walk = func(b *ssa.BasicBlock) bool {
+		if seen[b] {
+			return false
+		}
+		seen[b] = true
+		if b == target.Block() {
+			return true
+		}
+		succs := b.Succs
+		if iff, ok := b.Instrs[len(b.Instrs)-1].(*ssa.If); ok && len(b.Succs) == 2 {
+			if v, ok := decide(iff.Cond); ok {
+				if v {
+					succs = b.Succs[:1]
+				} else {
+					succs = b.Succs[1:]
+				}
+			}
+		}
+		for _, s := range succs {
+			if walk(s) {
+				return true
+			}
+		}
+		return false
+	}
+	if len(g.Blocks) == 0 {
+		return true
+	}
+	return walk(g.Blocks[0])
 }
